@@ -52,6 +52,10 @@ pub struct RingCfg {
     /// grants (32768 submission entries), sq_log2 is ignored.
     #[serde(default)]
     pub max_size: bool,
+    /// Ask for one completion entry less than the power of two the model
+    /// works with (the kernel rounds the request up: granted != requested).
+    #[serde(default)]
+    pub cq_odd: bool,
 }
 
 impl RingCfg {
@@ -69,7 +73,7 @@ impl RingCfg {
         }
     }
     pub fn simple(sq_log2: u8) -> RingCfg {
-        RingCfg { sq_log2, cq_log2: None, sq_start: Start::Zero, cq_start: Start::Zero, sqpoll: false, direct_slots: 0, alt_layout: false, defer_taskrun: false, max_size: false }
+        RingCfg { sq_log2, cq_log2: None, sq_start: Start::Zero, cq_start: Start::Zero, sqpoll: false, direct_slots: 0, alt_layout: false, defer_taskrun: false, max_size: false, cq_odd: false }
     }
 }
 
@@ -120,7 +124,11 @@ impl World {
             let _scope = track::scope(track::TAG_A10);
             let mut config = if cfg.max_size { Ring::config().with_maximum_queue_size() } else { Ring::config().with_submission_queue_size(cfg.sq_entries()) };
             if cfg.cq_log2.is_some() && !cfg.max_size {
-                config = config.with_completion_queue_size(cfg.cq_entries());
+                let n = cfg.cq_entries();
+                // n - 1 rounds up to n (unless that would fall below the
+                // submission queue size, which the kernel refuses).
+                let ask = if cfg.cq_odd && n >= 4 && n - 1 > n / 2 && n - 1 >= cfg.sq_entries() { n - 1 } else { n };
+                config = config.with_completion_queue_size(ask);
             }
             if cfg.sqpoll {
                 config = config.with_kernel_thread().with_idle_timeout(Duration::from_millis(10));
